@@ -91,6 +91,22 @@ def supervised(fn, deadline=20.0):
         signal.setitimer(signal.ITIMER_REAL, 0)
         signal.signal(signal.SIGALRM, old)
 
+def lay(a, layout):
+    """the same array values in another memory layout, as callers produce them without noticing: 'F' = column-major (what a
+    transposed table `T.T` or a column selection `A[:, perm]` gives), 'S' = a strided view into a larger buffer (every second
+    row / column of a bigger array). None / 'C' = the array as built."""
+    import numpy as np
+    if layout == "F" and getattr(a, "ndim", 0) == 2:
+        return np.asfortranarray(a)
+    if layout == "S" and getattr(a, "ndim", 0) == 2:
+        big = np.zeros((2 * a.shape[0] + 1, 2 * a.shape[1] + 1), dtype=a.dtype); v = big[1::2, 1::2]; v[...] = a
+        return v
+    if layout == "S" and getattr(a, "ndim", 0) == 1:
+        big = np.zeros(2 * a.shape[0] + 1, dtype=a.dtype); v = big[1::2]; v[...] = a
+        return v
+    return a
+LAYOUTS = (None, None, "F", None, None, "S", None, "F", None, None, None)
+
 def supervised_fork(fn, deadline=20.0):
     """like supervised, but in a forked child that is killed after the deadline: also stops hangs inside C code
     (where the interpreter never gets to run the SIGALRM handler). fn must return picklable plain data."""
